@@ -166,5 +166,7 @@ def check(s):
     s.eq("C09.4", "PPO.__init__", nz6, p6.self_attrs.get("batch_size", NONE),
          s.ref(b6, "(num_steps * num_envs) // num_batches", {k: ("param", k) for k in ("num_steps", "num_envs", "num_batches")}),
          "batch_size == (num_steps·num_envs) // num_batches", s.loc("PPO", "__init__"), key="batch-size")
+    from .util import no_late_binding
+    no_late_binding(s, "C09.2", ("lerax.buffer", "lerax.algorithm.ppo"), necessary_for="every field of a stored transition comes from the same insertion (a function value built in a loop must not read the loop variable late)")
     for r_, n in (("C09.1", 4), ("C09.2", 6), ("C09.3", 3), ("C09.4", 9)):
         s.floor(r_, n)
